@@ -192,6 +192,42 @@ def search_c09():
     return None
 
 
+def search_c14():
+    from rsatoolbox.data.noise import _covariance_diag, _covariance_eye
+    rs = np.random.RandomState(3)
+    for rep in range(400):
+        n, p = rs.randint(2, 7), rs.randint(2, 5)
+        X = rs.randint(-16, 17, size=(n, p)) / 8.0
+        if rep % 3 == 0:
+            X[1:] = -X[:1] + rs.randint(-1, 2, size=(n - 1, p)) / 64.0      # rows nearly equal up to sign
+        X = X - X.mean(0, keepdims=True)
+        dof = n - 1
+        S = X.T @ X / dof
+        if np.any(np.diag(S) < 1e-9):
+            continue
+        off = ~np.eye(p, dtype=bool)
+        for name, f in (('_covariance_diag', _covariance_diag), ('_covariance_eye', _covariance_eye)):
+            C = np.asarray(f(X.copy(), dof), float)
+            inp = dict(function=name, matrix=X.tolist(), dof=dof)
+            if not np.all(np.isfinite(C)):
+                return _fail(name, inp, C.tolist(), 'finite entries', 'the shrinkage estimate is not finite')
+            if name == '_covariance_diag':
+                target = np.diag(np.diag(S))
+            else:
+                target = np.trace(S) / p * np.eye(p)
+            # C = lam * target + (1 - lam) * S for one lam in [0,1]
+            den = (target - S)[np.abs(target - S) > 1e-9]
+            if den.size == 0:
+                continue
+            lam = (C - S)[np.abs(target - S) > 1e-9] / den
+            if np.max(lam) - np.min(lam) > 1e-6 or np.min(lam) < -1e-9 or np.max(lam) > 1 + 1e-9 \
+                    or not np.allclose(C, lam[0] * target + (1 - lam[0]) * S, atol=1e-9):
+                return _fail(name, inp, dict(estimate=C.tolist(), implied_intensity=[float(x) for x in lam]),
+                             'lam * target + (1 - lam) * covariance with one lam in [0,1]',
+                             'the shrinkage estimate is not a convex combination of the covariance with its target')
+    return None
+
+
 def search_c10():
     from rsatoolbox.util.rdm_utils import _get_n_from_length, _get_n_from_reduced_vectors
     for n in list(range(1, 3001)) + [2 ** e + d for e in range(12, 26) for d in (-1, 0, 1)]:
